@@ -57,3 +57,7 @@ func verifPrefer(c bool)
 func verifTime(name string) time.Time
 func verifTimeIn(name string, loc int) time.Time
 func verifTimeAt(name string, loc int, sec int64) time.Time
+func verifSkipCase()
+func verifRandStream(i int) []byte
+func verifDependsOnExact(v any, name string) bool
+func verifBytesSym(name string, max, spare int) []byte
